@@ -7,6 +7,7 @@
 package main
 
 import (
+	"bytes"
 	"context"
 	"encoding/json"
 	"flag"
@@ -45,6 +46,7 @@ func main() {
 		sites    = flag.String("sites", "", "simgen site table")
 		bins     = flag.String("bins", "", "directory holding the sibling harness binaries")
 		child    = flag.String("child", "", "child: request file")
+		wallFlag = flag.Float64("wall", 0, "report: wall-clock seconds of the workers")
 	)
 	flag.Parse()
 	self, _ := os.Executable()
@@ -58,6 +60,8 @@ func main() {
 		os.Exit(engine.RunChild(cfg, *child))
 	case "parent":
 		os.Exit(parent(cfg, *workers, *evidence, *replays, *known))
+	case "report":
+		os.Exit(reportMode(cfg, *file, *wallFlag, *evidence, *replays, *known, *workers))
 	}
 	fmt.Fprintln(os.Stderr, "simcheck: unknown mode", *mode)
 	os.Exit(2)
@@ -178,6 +182,56 @@ func parent(cfg engine.Config, workers int, evidencePath, replayDir, knownPath s
 		return 2
 	}
 	wall := time.Since(start).Seconds()
+	if len(total.Violations) == 0 {
+		return engine.Report(cfg, total, wall, evidencePath, replayDir, knownPath, workers)
+	}
+	// Reporting minimises, and minimising runs the tree under test on shrunken inputs: done in a process of its own,
+	// so that a tree which brings the process down from a goroutine of its own cannot take the verdict with it.
+	tf := filepath.Join(dir, "total-"+cfg.Prop+".json")
+	b, _ := json.Marshal(total)
+	if err := os.WriteFile(tf, b, 0o644); err == nil {
+		args := []string{"-mode", "report", "-prop", cfg.Prop, "-tier", cfg.Tier, "-seed", strconv.FormatUint(cfg.Seed, 10), "-repo", cfg.Repo, "-scratch", dir, "-sites", cfg.Sites, "-bins", cfg.Bins,
+			"-file", tf, "-evidence", evidencePath, "-replays", replayDir, "-known", knownPath, "-workers", strconv.Itoa(workers), "-wall", strconv.FormatFloat(wall, 'f', 3, 64)}
+		if cfg.Inst {
+			args = append(args, "-inst")
+		}
+		if cfg.Race {
+			args = append(args, "-race")
+		}
+		cmd := exec.Command(cfg.Self, args...)
+		var ob bytes.Buffer
+		var eb tailBuffer
+		cmd.Stdout, cmd.Stderr = &ob, io.MultiWriter(os.Stderr, &eb)
+		err := cmd.Run()
+		os.Remove(tf)
+		code := 0
+		if ee, ok := err.(*exec.ExitError); ok {
+			code = ee.ExitCode()
+		} else if err != nil {
+			code = -1
+		}
+		if code == 0 || code == 1 {
+			os.Stdout.Write(ob.Bytes())
+			return code
+		}
+		fmt.Fprintf(os.Stderr, "simcheck: the minimising reporter died (exit %d); reporting the findings as the workers made them\n", code)
+	}
+	cfg.NoMinimise = true
+	return engine.Report(cfg, total, wall, evidencePath, replayDir, knownPath, workers)
+}
+
+// reportMode is the body of the reporter process.
+func reportMode(cfg engine.Config, file string, wall float64, evidencePath, replayDir, knownPath string, workers int) int {
+	b, err := os.ReadFile(file)
+	if err != nil {
+		fmt.Fprintln(os.Stderr, err)
+		return 2
+	}
+	total := engine.NewShardResult()
+	if err := json.Unmarshal(b, total); err != nil {
+		fmt.Fprintln(os.Stderr, err)
+		return 2
+	}
 	return engine.Report(cfg, total, wall, evidencePath, replayDir, knownPath, workers)
 }
 
